@@ -4,6 +4,8 @@ import Frugal.Proofs.BuildCacheLemmas
 import Frugal.Props.Inst.F_facts_buildProtocol
 import Frugal.Props.Inst.F_facts_rollback
 import Frugal.Props.Inst.F_valid_bitset
+import Frugal.Proofs.TypeKeyLemmas
+import Frugal.Props.Inst.F_facts_typeNodeCacheKeyed
 namespace Frugal.C07
 open Frugal
 /-- the required-field verdict is independent of the pooled presence set's prior contents -/
@@ -56,4 +58,28 @@ theorem noRollback_breaks :
     (useTypeNoRollback exR 0 {}).1 = false ∧
     (useTypeNoRollback exR 3 (useTypeNoRollback exR 0 {}).2).1 = true ∧
     (useType exR 3 (useType exR 0 {}).2).1 = false ∧ (useType exR 3 {}).1 = false := by decide
+/-! ### the third process-wide cache: type nodes (`ttypes`, keyed by annotation text and Go type) -/
+
+/-- among annotations of one Go type the text `defs.Type.String()` is a prefix code, so the cache key
+    `(x.String(), x.S)` determines the annotation: `set` vs `list`, enum vs `i64`, at any nesting -/
+theorem type_node_key_is_faithful (nm : Nat → List Char) (a b : Ty) (h : nodeKey nm a = nodeKey nm b) :
+    a = b := nodeKey_injective nm a b h
+
+/-- … hence a lookup returns the node built from its own argument and keeps the cache consistent,
+    whatever was looked up before (any history, any order of first use) -/
+theorem type_node_independent_of_history (nm : Nat → List Char) (xs : List Ty) (x : Ty) :
+    (getNode nm (xs.foldl (fun c y => (getNode nm c y).2) []) x).1 = x :=
+  (getNode_correct nm _ x (getNode_history nm xs [] (by intro p hp; cases hp))).1
+
+/-- the key without the text for leaf nodes (the mutation the sub-agents found three times) collides:
+    a named int64 as enum and as `i64` share it -/
+theorem leafless_key_is_not_faithful (nm : Nat → List Char) :
+    nodeKeyLeafless nm (.base .enum) = nodeKeyLeafless nm (.base .i64) ∧ (Ty.base .enum) ≠ (.base .i64) :=
+  leafless_key_collides nm
+
+/-- the code is that cache (regenerated fact: the key type, lookup-before-build and store right after
+    allocation in `newTType`, no other use of `ttypes`, and `Type.String()` case by case) -/
+theorem type_node_cache_code_is_the_model : Generated.facts.typeNodeCacheKeyed = true :=
+  Instances.facts_typeNodeCacheKeyed
+
 end Frugal.C07
